@@ -4,6 +4,9 @@
 //   * any bit flip in R, S, the message or the key flips the verdict to "reject".
 // One asymmetry is tolerated and counted: for a *tampered public key* MatrixSSL (libsodium) may be stricter than
 // OpenSSL (it refuses small-order keys), which the property allows ("bad keys rejected").
+// prop_torsion: the 8 points of small order in all 14 encodings (both x sign bits, y >= p variants) as public keys and as R,
+// with signatures that need no private key, and mixed-order keys / R values made with a private key; many messages per key.
+// Reference: accept only if OpenSSL accepts AND the public key is not of small order (own Edwards arithmetic on BN: [8]A != 0).
 #include "c11_common.h"
 using namespace c11;
 using namespace vf;
@@ -36,11 +39,83 @@ static bool add_L(B &s, unsigned k) {
 enum Mut { M_NONE = 0, M_RBIT, M_SBIT, M_S_PLUS_L, M_S_PLUS_KL, M_MSG, M_MSG_LEN, M_PKBIT, M_OTHER_KEY, M_R_ZERO, M_S_ZERO, M_S_EQ_L, M_SWAP_RS, M_COUNT };
 static const char *mut_name(int m) { static const char *n[] = { "none", "R-bitflip", "S-bitflip", "S+L", "S+kL", "msg-bitflip", "msg-length", "pubkey-bitflip", "other-key", "R=0", "S=0", "S=L", "R<->S" }; return n[m]; }
 
+// ---------------------------------------------------------------- small-order / mixed-order points
+// g_tors: every encoding of a point of small order that fits 32 bytes.  Derived, not copied: the multiples of a point of order 8,
+// plus the sign-bit-set form of the two points with x = 0 and the y + p forms (both sign bits) of the points with y < 19.
+struct Tors { B enc; int order; bool canonical; };
+static std::vector<Tors> &g_tors = *new std::vector<Tors>();
+static std::vector<B> &g_tors_canon = *new std::vector<B>();
+static B hram(const B &R, const B &A, const B &M) { B in = cat({ R, A, M }); return ox::sc25519_reduce(ox::hash(ox::H_SHA512, in.data(), in.size())); }
+static B msg_variant(const B &base, unsigned i) { B m = base; m.push_back((uint8_t) i); m.push_back((uint8_t) (i * 37 + 11)); return m; }
+
+enum TC { TC_TRIVIAL = 0, TC_TORSION_R, TC_SOLVED_R, TC_HONEST_R_KNOWN_S, TC_FOREIGN_SIG, TC_IDENTITY_R_HONEST_KEY, TC_TORSION_R_HONEST_KEY, TC_MIXED_KEY, TC_MIXED_R, TC_COUNT };
+static const char *tc_name(int v) {
+    static const char *n[] = { "small-key:R=identity,S=0", "small-key:R=torsion,S=0", "small-key:R=-hA,S=0", "small-key:R=sB,S=s", "small-key:foreign-genuine-signature",
+                               "honest-key:R=identity-encodings,S=h*a", "honest-key:R=torsion,S=h*a", "mixed-order-key:A+T", "mixed-order-R:R+T" };
+    return n[v];
+}
+static void prop_torsion(Tape &t, Ctx &c, const B &seed, const B &pub, const B &msg) {
+    static const uint8_t tcw[] = { TC_TRIVIAL, TC_TRIVIAL, TC_TRIVIAL, TC_TORSION_R, TC_SOLVED_R, TC_SOLVED_R, TC_HONEST_R_KNOWN_S, TC_HONEST_R_KNOWN_S, TC_FOREIGN_SIG,
+                                   TC_IDENTITY_R_HONEST_KEY, TC_TORSION_R_HONEST_KEY, TC_MIXED_KEY, TC_MIXED_KEY, TC_MIXED_R, TC_TRIVIAL, TC_TORSION_R };
+    int tc = tcw[t.below(sizeof tcw)];
+    const Tors &ta = g_tors[t.below(g_tors.size())], &tb = g_tors[t.below(g_tors.size())];
+    int entry = (int) t.below(3); B seed2 = tape_bytes(t, 8); seed2.resize(32, 0x42);
+    bool small_key = tc <= TC_FOREIGN_SIG; unsigned nmsg = small_key ? 16 : 6;
+    B a = ox::ed25519_secret_scalar(seed), r = ox::ed25519_secret_scalar(seed2), Rr = ox::ed25519_pub(seed2);      // Rr = r*B
+    c.count(std::string("torsion:") + tc_name(tc)); c.count(fmt("torsion:point order=%d %s%s", ta.order, ta.canonical ? "canonical" : "non-canonical", (ta.enc[31] & 0x80) ? " sign-bit-set" : ""));
+    c.count(fmt("torsion:entry%d", entry));
+    unsigned accepted_ref = 0, accepted_mx = 0;
+    for (unsigned i = 0; i < nmsg; i++) {
+        B m = msg_variant(msg, i), pk = small_key ? ta.enc : pub, sig(64, 0);
+        switch (tc) {
+        case TC_TRIVIAL: sig[0] = 1; break;
+        case TC_TORSION_R: memcpy(&sig[0], tb.enc.data(), 32); break;
+        case TC_SOLVED_R: {     // S*B = R + h*A with S = 0 needs R = -h(R)*A: try the 8 points
+            sig[0] = 1;
+            for (const B &cand : g_tors_canon) { B h = hram(cand, pk, m), hA = ox::ed25519_mul(B{ (uint8_t) (h[0] & 7) }, pk); if (!hA.empty() && ox::ed25519_small_order(ox::ed25519_add(hA, cand)) == 1) { memcpy(&sig[0], cand.data(), 32); break; } }
+            break; }
+        case TC_HONEST_R_KNOWN_S: { memcpy(&sig[0], Rr.data(), 32); B s = ox::sc25519_reduce(r); memcpy(&sig[32], s.data(), 32); break; }    // r*B = R + h*A iff h*A = 0
+        case TC_FOREIGN_SIG: sig = ox::ed25519_sign(seed, m); break;
+        case TC_IDENTITY_R_HONEST_KEY: case TC_TORSION_R_HONEST_KEY: {
+            const Tors *tr = &tb;
+            if (tc == TC_IDENTITY_R_HONEST_KEY) { unsigned k = (unsigned) i; for (unsigned j = 0, seen = 0; j < g_tors.size(); j++) if (g_tors[j].order == 1 && seen++ == k % 4) tr = &g_tors[j]; }
+            memcpy(&sig[0], tr->enc.data(), 32); B s = ox::sc25519_muladd(hram(tr->enc, pk, m), a, B(32, 0)); memcpy(&sig[32], s.data(), 32);
+            break; }
+        case TC_MIXED_KEY: {    // A' = A + T, signature made with a: S*B = R + h*A, so it holds for A' iff h*T = 0
+            pk = ox::ed25519_add(pub, ta.enc); VF_CHECK(pk.size() == 32, "harness", "A+T");
+            memcpy(&sig[0], Rr.data(), 32); B s = ox::sc25519_muladd(hram(Rr, pk, m), a, r); memcpy(&sig[32], s.data(), 32);
+            break; }
+        default: {              // R' = r*B + T, S = r + h(R')*a: valid only after clearing the cofactor
+            B R2 = ox::ed25519_add(Rr, ta.enc); VF_CHECK(R2.size() == 32, "harness", "R+T");
+            memcpy(&sig[0], R2.data(), 32); B s = ox::sc25519_muladd(hram(R2, pk, m), a, r); memcpy(&sig[32], s.data(), 32); }
+        }
+        bool ossl = ox::ed25519_verify(pk, m, sig); int so = ox::ed25519_small_order(pk);
+        VF_CHECK(!small_key || so == ta.order, "harness", "small-order classification");
+        bool expected = ossl && so == 0;
+        if (ossl && so) c.count("torsion:note-openssl-accepts-forgery-under-small-order-key");
+        int got = mx_verify(entry, pk, m, sig);
+        accepted_ref += expected; accepted_mx += (unsigned) got;
+        c.count(expected ? "expected-accept" : "expected-reject");
+        c.nontrivial(fmt("t:%d:%s:%d:%u:%d", tc, hx(ta.enc).c_str(), entry, i, tc == TC_TORSION_R || tc == TC_TORSION_R_HONEST_KEY ? (int) (&tb - &g_tors[0]) : 0));
+        if (got && !expected) {
+            if (so) VF_FAIL("ed25519-small-order-key-accepted", "a signature made without any private key verifies under a public key of order %d (%s encoding%s): entry=%d class=%s pub=%s msg=%s sig=%s openssl_accepts=%d",
+                            so, ta.canonical ? "canonical" : "non-canonical", (pk[31] & 0x80) ? ", x sign bit set" : "", entry, tc_name(tc), hx(pk).c_str(), hx(m, 64).c_str(), hx(sig).c_str(), (int) ossl);
+            VF_FAIL("ed25519-invalid-accepted", "class=%s entry=%d pub=%s msg=%s sig=%s (OpenSSL rejects)", tc_name(tc), entry, hx(pk).c_str(), hx(m, 64).c_str(), hx(sig).c_str());
+        }
+        // OpenSSL accepts: R = canonical identity with S = h*a (needs the private key), or a mixed-order key with h*T = 0.  A verifier
+        // that refuses small-order R or clears the cofactor differently is within RFC 8032; counted, not judged.
+        if (!got && expected) c.count(fmt("torsion:note-matrixssl-stricter-than-openssl [%s]", tc_name(tc)));
+    }
+    c.count(accepted_ref ? "torsion:case-with-reference-accepts" : "torsion:case-all-rejected-by-reference");
+    c.sample(fmt("ed25519 torsion class=%s point=%s order=%d entry=%d msgs=%u ref_accepts=%u mx_accepts=%u", tc_name(tc), hx(ta.enc).c_str(), ta.order, entry, nmsg, accepted_ref, accepted_mx));
+}
+
 static void prop(Tape &t, Ctx &c) {
     ent_seed(t.u32());
     B seed = tape_bytes(t, 32); int sk = (int) t.below(8); if (sk == 0) seed.assign(32, 0); else if (sk == 1) seed.assign(32, 0xFF);
     B pub = ox::ed25519_pub(seed), msg = gen_msg(t), want = ox::ed25519_sign(seed, msg);
     int mode = (int) t.below(10);
+    if (mode == 9) { prop_torsion(t, c, seed, pub, msg); return; }     // (was: a third share of the signing comparison)
     if (mode >= 7) {     // MatrixSSL signs: byte equality (RFC 8032 signatures are deterministic)
         B got;
         if (t.coin()) {
@@ -105,4 +180,34 @@ static void prop(Tape &t, Ctx &c) {
     }
 }
 VF_TARGET("C11.ed25519", prop, 160, 60)
-namespace vf { void vf_global_init(int, char **) { if (psCryptoOpen(PSCRYPTO_CONFIG) < 0) { fprintf(stderr, "[C11] psCryptoOpen failed\n"); _Exit(97); } } }
+namespace vf {
+void vf_global_init(int, char **) {
+    if (psCryptoOpen(PSCRYPTO_CONFIG) < 0) { fprintf(stderr, "[C11] psCryptoOpen failed\n"); _Exit(97); }
+    // oracle self-test: own Edwards arithmetic reproduces OpenSSL's public keys and makes signatures OpenSSL accepts
+    for (int i = 0; i < 4; i++) {
+        B seed(32, (uint8_t) (i * 0x5b + 1)), a = ox::ed25519_secret_scalar(seed), A = ox::ed25519_pub(seed);
+        if (ox::ed25519_mul(a, ox::ed25519_base()) != A || ox::ed25519_small_order(A) != 0 || !ox::ed25519_point_canonical(A)) { fprintf(stderr, "[C11] Edwards arithmetic self-test failed\n"); _Exit(97); }
+        B seed2(32, (uint8_t) (i + 7)), r = ox::ed25519_secret_scalar(seed2), R = ox::ed25519_pub(seed2), m{ 1, 2, 3 };
+        B sig = R; B s = ox::sc25519_muladd(hram(R, A, m), a, r); sig.insert(sig.end(), s.begin(), s.end());
+        if (!ox::ed25519_verify(A, m, sig)) { fprintf(stderr, "[C11] own Ed25519 signature construction rejected by OpenSSL\n"); _Exit(97); }
+    }
+    // the 8-torsion: multiples of the point of order 8 with y = 26e8958f...fc05, then the non-canonical encodings
+    static const uint8_t y8[32] = { 0x26, 0xe8, 0x95, 0x8f, 0xc2, 0xb2, 0x27, 0xb0, 0x45, 0xc3, 0xf4, 0x89, 0xf2, 0xef, 0x98, 0xf0, 0xd5, 0xdf, 0xac, 0x05, 0xd3, 0xc6,
+                                    0x33, 0x39, 0xb1, 0x38, 0x02, 0x88, 0x6d, 0x53, 0xfc, 0x05 };
+    B T8(y8, y8 + 32), P(32, 0); P[0] = 1;
+    for (int k = 0; k < 8; k++) {
+        int order = ox::ed25519_small_order(P);
+        g_tors_canon.push_back(P); std::vector<B> forms{ P };
+        B y = P; y[31] &= 0x7F; bool ysmall = true; for (int j = 1; j < 32; j++) if (y[j]) ysmall = false;
+        if (ysmall && y[0] < 19) { B e(32, 0xFF); e[0] = (uint8_t) (0xED + y[0]); e[31] = (P[31] & 0x80) ? 0xFF : 0x7F; forms.push_back(e); }      // y + p fits in 255 bits
+        if (order <= 2) { size_t n = forms.size(); for (size_t j = 0; j < n; j++) { B e = forms[j]; e[31] ^= 0x80; forms.push_back(e); } }          // x = 0: either sign bit decodes to the same point
+        for (size_t j = 0; j < forms.size(); j++) {
+            if (ox::ed25519_small_order(forms[j]) != order || ox::ed25519_point_canonical(forms[j]) != (j == 0)) { fprintf(stderr, "[C11] torsion encoding misclassified\n"); _Exit(97); }
+            g_tors.push_back(Tors{ forms[j], order, j == 0 });
+        }
+        P = ox::ed25519_add(P, T8);
+    }
+    int n1 = 0, n2 = 0, n4 = 0, n8 = 0; for (auto &x : g_tors) { if (x.order == 1) n1++; else if (x.order == 2) n2++; else if (x.order == 4) n4++; else if (x.order == 8) n8++; }
+    if (P != g_tors[0].enc || g_tors.size() != 14 || n1 != 4 || n2 != 2 || n4 != 4 || n8 != 4) { fprintf(stderr, "[C11] torsion table wrong: %zu encodings (%d/%d/%d/%d)\n", g_tors.size(), n1, n2, n4, n8); _Exit(97); }
+}
+}
